@@ -239,8 +239,8 @@ def gen_c17(rng: random.Random) -> dict:
 class C17(CheckBase):
     pid = "C17"
     level = "exploration"
-    quick_cases = 4000
-    thorough_cases = 60000
+    quick_cases = 12000
+    thorough_cases = 120000
 
     def cases(self, rng: random.Random, tier: str, idx: int) -> Iterable[dict]:
         yield gen_c17(rng)
